@@ -474,12 +474,24 @@ class Ctx:
         self.format_mode = None
         self.notes = {}
         self.relaxed = []
+        self.extra_constraints = []
 
     # -- solver helpers
     def _check(self, *extra):
         st = self.ex.stats
         t = time.time()
-        if extra:
+        if self.ex.oneshot:
+            # one-shot solver: z3 then selects its complete QF_NRA procedure
+            # (nlsat); the incremental core is much weaker on non-linear reals
+            s1 = z3.Solver()
+            s1.set('timeout', self.ex.query_timeout_ms)
+            s1.add(*self.pc)
+            s1.add(*self.extra_constraints)
+            if extra:
+                s1.add(*extra)
+            r = s1.check()
+            model = s1.model() if r == z3.sat else None
+        elif extra:
             self.solver.push()
             self.solver.add(*extra)
             r = self.solver.check()
@@ -693,6 +705,7 @@ class Ctx:
         if val is None:
             for x in excluded:
                 self.solver.add(e != x)
+                self.extra_constraints.append(e != x)
             r, m = self._check()
             if r == z3.unsat:
                 raise Abort()
@@ -786,7 +799,8 @@ def z3_to_py(val):
 class Explorer:
     def __init__(self, max_paths=20000, query_timeout_ms=10000,
                  concretize_cap=64, wall_s=None, stop_on_violation=True,
-                 max_samples=3):
+                 max_samples=3, oneshot=True):
+        self.oneshot = oneshot
         self.max_paths = max_paths
         self.query_timeout_ms = query_timeout_ms
         self.concretize_cap = concretize_cap
